@@ -53,3 +53,67 @@ extern "C" void h_split(void)
 	vp_note(f.year);
 	vp_reach(1);
 }
+
+// fields -> instant: Date(UTC, y, m, d, h, mi, s) for symbolic fields; p0..p1 = year range, p2 = 1: month/day symbolic too
+extern "C" void h_fields(void)
+{
+	int y = vp_range(vp_param(0), vp_param(1));
+	int m = vp_param(2) ? vp_range(1, 12) : 3, d = vp_param(2) ? vp_range(1, 28) : 1;
+	int h = vp_range(0, 23), mi = vp_range(0, 59), s = vp_range(0, 59);
+	Date dt(Date::UTC, y, m, d, h, mi, s);
+	long long exp = days_from_civil(y, m, d) * 86400LL + h * 3600 + mi * 60 + s;
+	vp_assert(dt.time() == (double)exp, "Date(UTC, fields) is the instant of those proleptic Gregorian fields");
+	vp_reach(1);
+}
+
+static const char* TEMPLATES[] = {
+	"2017-05-18T03:24:12Z", "20170518T032412Z", "2017-05-18T03:24:12.123+05:30", "2017-05-18T03:24Z",
+	"Thu, 18 May 2017 03:24:12 GMT", "2017-05-18", "2017-05-18T03:24:12-0530", "20170518T0324+01", "1999-12-31T23:59:59.5Z" };
+
+static char sym_char()
+{
+	char c = (char)nondet_u8();
+	vp_assume((c >= '0' && c <= '9') || (c >= 'A' && c <= 'Z') || (c >= 'a' && c <= 'z') || c == ':' || c == '-' || c == '+' || c == '.' || c == ' ' || c == ',');
+	return c;
+}
+
+// parser totality: template p0 with the positions p1 .. p1+p2-1 replaced by arbitrary characters of the property's alphabet
+// (p0 = -1: a string of p2 arbitrary characters).  Nothing is asserted about the value: the engine checks every access and termination.
+extern "C" void h_parse(void)
+{
+	char buf[48];
+	int tpl = vp_param(0), pos = vp_param(1), cnt = vp_param(2), n = 0;
+	if (tpl >= 0) { const char* s = TEMPLATES[tpl]; while (s[n]) { buf[n] = s[n]; n++; } }
+	else { n = cnt; pos = 0; }
+	for (int i = pos; i < pos + cnt && i < n; i++) buf[i] = sym_char();
+	buf[n] = 0;
+	Date d = Date(String(buf));
+	double t = d.time();
+	vp_note(t != t ? 1 : 0);          // invalid or some value
+	vp_reach(1);
+}
+
+// zone offsets: the same concrete wall-clock text with a symbolic numeric offset denotes the 'Z' instant shifted by the offset
+extern "C" void h_zone(void)
+{
+	static const char* BASE[] = { "2017-05-18T03:24:12", "1970-01-01T00:00:00", "2096-02-29T23:59:59", "0001-01-01T00:00:00", "9999-12-31T23:59:59" };
+	const char* b = BASE[vp_param(0)];
+	int syntax = vp_param(1);           // 0: +HH  1: +HHMM  2: +HH:MM
+	int neg = nondet_bool() ? 1 : 0, hh = vp_range(0, 23), mm = syntax ? vp_range(0, 59) : 0;
+	char buf[40]; int n = 0;
+	while (b[n]) { buf[n] = b[n]; n++; }
+	int n0 = n;
+	buf[n++] = neg ? '-' : '+';
+	buf[n++] = (char)('0' + hh / 10); buf[n++] = (char)('0' + hh % 10);
+	if (syntax == 2) buf[n++] = ':';
+	if (syntax) { buf[n++] = (char)('0' + mm / 10); buf[n++] = (char)('0' + mm % 10); }
+	buf[n] = 0;
+	Date d = Date(String(buf));
+	buf[n0] = 'Z'; buf[n0 + 1] = 0;
+	Date z = Date(String(buf));
+	int off = (hh * 60 + mm) * 60;
+	vp_assert(z.time() == z.time(), "the 'Z' form of a valid date-time parses");
+	vp_assert(d.time() == z.time() - (neg ? -off : off), "an ISO string with a numeric zone offset denotes the UTC instant shifted by that offset");
+	vp_note(neg);
+	vp_reach(1);
+}
